@@ -9,7 +9,8 @@ Environment: CoolProp's compiled AbstractState is replaced by `FluidStub`, whose
 every pure fluid (listed in CONTRACT below and in the evidence).  "All refrigerants known to the property library" is
 therefore covered as "any fluid satisfying the contract"; the numerical quality of CoolProp itself is outside.  A
 counterexample is replayed on the real library with water, n-pentane (a dry fluid: wet compressor discharge at small
-superheat) and, in the thorough tier, ammonia at the model's temperatures: only clauses
+superheat), D4 (a heavy siloxane: saturated liquid at the condenser has more enthalpy than the evaporator vapour) and, in the
+thorough tier, ammonia at the model's temperatures: only clauses
 whose violation does not depend on the fluid's property values can reproduce -- the others would be weak-contract
 artefacts and are therefore not asserted.
 """
@@ -38,7 +39,7 @@ CONTRACT = [
     "h(p,T) non-decreasing in T at fixed p (cp > 0); saturated: h_g(p) > h_f(p); h(p,T) >= h_g(p) for T >= T_sat(p), h(p,T) <= h_f(p) for T <= T_sat(p)",
     "T(p,h) non-decreasing in h at fixed p",
     "two-phase states (h_f <= h <= h_g) are at T_sat(p); h >= h_g implies T >= T_sat, h <= h_f implies T <= T_sat",
-    "DOMAIN ASSUMPTION (sub-critical cycle away from the critical region): h_f(p_a) < h_g(p_b) for all pressures of the cycle",
+    "DOMAIN ASSUMPTION (sub-critical cycle away from the critical region; DROPPED in the `heavy` cases, replayed on D4): h_f(p_a) < h_g(p_b) for all pressures of the cycle",
     "all enthalpies in J/kg within [-1e7, 1e7], pressures in (0, 1e9)",
 ]
 
@@ -46,8 +47,9 @@ CONTRACT = [
 class FluidStub:
     """Stand-in for CoolProp.AbstractState in symbolic runs."""
 
-    def __init__(self, ctx):
+    def __init__(self, ctx, domain=True):
         self.ctx = ctx
+        self.domain = domain  # assume h_f(p_a) < h_g(p_b) for all pressures of the cycle (dropped in the `heavy` cases)
         self._p = self._T = self._h = self._s = None
         self.states = []      # (p, T, h, s) of every state computed, for pairwise axiom instantiation
 
@@ -117,7 +119,7 @@ class FluidStub:
         A(z3.Implies(hh.t <= hfp.t, T.t <= Tsp.t))
         # domain assumption (sub-critical cycle away from the critical region): saturated liquid at any pressure seen so far
         # has less enthalpy than saturated vapour at any other pressure seen so far
-        for (p2, T2, h2, s2) in self.states:
+        for (p2, T2, h2, s2) in (self.states if self.domain else []):
             A(self._f("hf", p).t < self._f("hg", p2).t)
             A(self._f("hf", p2).t < hgp.t)
         # pairwise physical monotonicities against every state seen so far on this path
@@ -173,9 +175,11 @@ def body(ctx, case):
     # inside the two-phase range of the fluid the concrete replays use (water: 0.01..374 C, ammonia: -77.7..132 C), away from its ends
     # n-pentane is a 'dry' fluid (overhanging dew line): with little superheat its compression ends inside the dome, so the
     # wet-discharge paths of the model have concrete replays too
-    te_lo, te_hi, tc_hi, sh_hi = {"water": (5, 90, 200, 20), "ammonia": (-40, 40, 100, 20), "n-Pentane": (30, 80, 160, 0.5)}[case.get("fluid", "water")]
+    te_lo, te_hi, tc_hi, sh_hi = {"water": (5, 90, 200, 20), "ammonia": (-40, 40, 100, 20), "n-Pentane": (30, 80, 160, 0.5), "D4": (40, 60, 230, 5)}[case.get("fluid", "water")]
     Te = ctx.real("Te", te_lo, te_hi)
-    Tc = ctx.real("Tc", te_lo, tc_hi)
+    # D4 (a heavy siloxane): saturated liquid at 200 C has MORE enthalpy than saturated vapour at 60 C, so with these ranges the
+    # 'condenser outlet above evaporator outlet' branch of _compute_condenser_outlet_state is taken on the real library
+    Tc = ctx.real("Tc", te_lo if case.get("fluid") != "D4" else 200, tc_hi)
     dsh = ctx.real("dsh", 0, sh_hi)
     dsc = ctx.real("dsc", 0, 20)
     eta = ctx.const(float(case.get("eta", 0.75)))      # concrete: h_out = h_in + (h_is - h_in)/eta stays linear in the state functions
@@ -201,7 +205,7 @@ def body(ctx, case):
                 return
             raise
     else:
-        stub = FluidStub(ctx)
+        stub = FluidStub(ctx, domain=not case.get("heavy"))
         cyc._state = stub
         cyc._p_crit, cyc._t_crit, cyc._d_crit = 1e12, 1e6, 1.0
         _psat_monotone(ctx, [Te + 273.15, Tc + 273.15])
@@ -261,18 +265,19 @@ def body(ctx, case):
 
 def cases(tier, seed):
     if tier == "quick":
-        return [{"fluid": "water", "eta": 0.75, "Q": 1000.0}, {"fluid": "n-Pentane", "eta": 1.0, "Q": 1000.0},
+        return [{"fluid": "water", "eta": 0.75, "Q": 1000.0}, {"fluid": "n-Pentane", "eta": 1.0, "Q": 1000.0}, {"fluid": "D4", "eta": 0.75, "Q": 1000.0, "heavy": True},
                 {"fluid": "water", "eta": 0.75, "Q": 1000.0, "small_lift": True}]
     return ([{"fluid": f, "eta": e, "Q": q} for f in ("water", "ammonia", "n-Pentane") for e, q in ((0.5, 1000.0), (0.75, 40.0), (1.0, 250.0))]
+            + [{"fluid": "D4", "eta": e, "Q": 1000.0, "heavy": True} for e in (0.5, 0.75, 1.0)]
             + [{"fluid": "water", "eta": 0.75, "Q": 1000.0, "small_lift": True}])
 
 
 FAMILIES = [
     Family(name="cycle", cases=cases, body=body, functions=FUNCS, files=FILES,
-           bounds="evaporating temperature in [5,90] C and condensing up to 200 C (water replays; ammonia: [-40,40] and up to 100 C; n-pentane: [30,80] and up to 160 C, superheat <= 0.5 K) with lift >= 1 K, superheat and subcooling in [0,20] K, compressor efficiency concrete in {0.5, 0.75, 1} and duty concrete (the cycle is linear in the duty) "
+           bounds="evaporating temperature in [5,90] C and condensing up to 200 C (water replays; ammonia: [-40,40] and up to 100 C; n-pentane: [30,80] and up to 160 C, superheat <= 0.5 K; D4: [40,60] and [200,230] C, superheat <= 5 K, without the domain assumption) with lift >= 1 K, superheat and subcooling in [0,20] K, compressor efficiency concrete in {0.5, 0.75, 1} and duty concrete (the cycle is linear in the duty) "
                   "-- temperatures, superheat and subcooling z3 reals; ihx_gas_dt = 0; request order of the stream sets (condenser first / evaporator first / both at once) a solver choice",
            assumptions=["CoolProp AbstractState replaced by uninterpreted state functions under the contract: " + "; ".join(CONTRACT),
-                        "sub-critical cycles only (critical point moved out of range)", "replay on the real library with water and n-pentane (thorough: also ammonia) at the model's temperatures"],
+                        "sub-critical cycles only (critical point moved out of range)", "replay on the real library with water, n-pentane and D4 (thorough: also ammonia) at the model's temperatures"],
            shim_modules=["OpenPinch.classes.simple_heat_pump", "OpenPinch.classes.stream", "OpenPinch.classes.stream_collection"],
            timeout_ms=60000, split_paths=20, validate_every=3, concrete_only_validation=True, snap="dyadic", reach=["order=0", "order=1", "order=2", "small lift explored"]),
 ]
